@@ -2,13 +2,15 @@
 use crate::common::*;
 use std::io::Write;
 
-mod c07;
+mod c01;
+pub mod c07;
 mod c10;
 
 pub fn generate(suite: &str, tier: &str, seed: u64) -> Vec<String> {
     let mut rng = Rng::new(seed);
     let thorough = tier == "thorough";
     match suite {
+        "c01" => c01::generate(&mut rng, thorough),
         "c07" => c07::generate(&mut rng, thorough),
         "c10" => c10::generate(&mut rng, thorough),
         _ => panic!("unknown suite {suite}"),
@@ -16,6 +18,9 @@ pub fn generate(suite: &str, tier: &str, seed: u64) -> Vec<String> {
 }
 
 pub fn eval_more(t: &[&str]) -> String {
+    if let Some(s) = c01::eval(t) {
+        return s;
+    }
     if let Some(s) = c10::eval(t) {
         return s;
     }
